@@ -369,16 +369,24 @@ type solverSpec struct {
 	argv func(file string, timeout int) []string
 }
 
+// Budgets are *resource* limits (deterministic, independent of machine load); the
+// wall-clock limit is only a safety net and is set generously (t is scaled by 12).
+var rlimitPerSecond = 6000000 // z3 resource units that correspond to roughly one second on an idle core
+
 var solvers = []solverSpec{
-	{"z3-new", func(f string, t int) []string { return []string{"z3-new", fmt.Sprintf("-T:%d", t), f} }},
-	{"z3", func(f string, t int) []string { return []string{"z3", fmt.Sprintf("-T:%d", t), f} }},
+	{"z3-new", func(f string, t int) []string {
+		return []string{"z3-new", fmt.Sprintf("rlimit=%d", t*rlimitPerSecond), fmt.Sprintf("-T:%d", t*12), f}
+	}},
+	{"z3", func(f string, t int) []string {
+		return []string{"z3", fmt.Sprintf("rlimit=%d", t*rlimitPerSecond), fmt.Sprintf("-T:%d", t*12), f}
+	}},
 	{"cvc5", func(f string, t int) []string {
-		return []string{"cvc5", "--dt-nested-rec", fmt.Sprintf("--tlimit=%d", t*1000), f}
+		return []string{"cvc5", "--dt-nested-rec", fmt.Sprintf("--rlimit=%d", t*300000), fmt.Sprintf("--tlimit=%d", t*12*1000), f}
 	}},
 }
 
 func runSolver(s solverSpec, file string, timeout int) (string, float64) {
-	ctx, cancel := context.WithTimeout(context.Background(), time.Duration(timeout+2)*time.Second)
+	ctx, cancel := context.WithTimeout(context.Background(), time.Duration(timeout*12+5)*time.Second)
 	defer cancel()
 	argv := s.argv(file, timeout)
 	cmd := exec.CommandContext(ctx, argv[0], argv[1:]...)
@@ -388,8 +396,16 @@ func runSolver(s solverSpec, file string, timeout int) (string, float64) {
 	t0 := time.Now()
 	cmd.Run()
 	dt := time.Since(t0).Seconds()
-	first := strings.TrimSpace(strings.SplitN(out.String(), "\n", 2)[0])
-	if strings.Contains(out.String(), "(error") {
+	first := ""
+	for _, line := range strings.Split(out.String(), "\n") {
+		line = strings.TrimSpace(line)
+		if line == "" || strings.HasPrefix(line, "WARNING") {
+			continue
+		}
+		first = line
+		break
+	}
+	if strings.Contains(out.String(), "(error") && !strings.Contains(out.String(), "canceled") && !strings.Contains(out.String(), "resource") {
 		first = ""
 	}
 	switch first {
@@ -415,11 +431,7 @@ func discharge(ob *Obligation, dir string, timeout int, agree bool) {
 		file = filepath.Join(dir, fmt.Sprintf("ob_%x.smt2", hashStr(ob.Name)))
 	}
 	os.WriteFile(file, []byte(ob.Query), 0o644)
-	first := 3
-	if timeout < first {
-		first = timeout
-	}
-	res, dt := runSolver(solvers[0], file, first)
+	res, dt := runSolver(solvers[0], file, timeout)
 	ob.Time += dt
 	if res == "unsat" && !agree {
 		ob.Status, ob.Solver = "proved", solvers[0].name
@@ -493,7 +505,7 @@ func getModel(ob *Obligation, file, solver string, timeout int) string {
 			continue
 		}
 		argv := s.argv(mf, timeout)
-		ctx, cancel := context.WithTimeout(context.Background(), time.Duration(timeout+2)*time.Second)
+		ctx, cancel := context.WithTimeout(context.Background(), time.Duration(timeout*12+5)*time.Second)
 		defer cancel()
 		out, _ := exec.CommandContext(ctx, argv[0], argv[1:]...).CombinedOutput()
 		txt := string(out)
